@@ -90,6 +90,10 @@ type pathCtx struct {
 	model      map[string]uint64 // a model of the current pc (nil if unknown)
 	known      map[string]uint64 // variables fixed to a constant by the pc
 	lastModel  map[string]uint64
+	s2started  bool
+	declared2  map[string]bool
+	flushed2   int
+	emit       func([]Decision) // immediate hand-off of sibling prefixes to the shared queue
 }
 
 func newPathCtx(prefix []Decision, solver, solver2 *sym.Solver, harness string) *pathCtx {
@@ -256,6 +260,11 @@ func (p *pathCtx) checkModel(extra ...*sym.Term) (sym.Result, map[string]uint64)
 	if r == sym.Unknown {
 		p.abort("solver %s answered unknown (%s)", p.solver.Name, p.solver.LastErr)
 	}
+	for k, v := range p.extraModel {
+		if model != nil {
+			model[k] = v
+		}
+	}
 	if p.solver2 != nil {
 		r2 := p.crossCheck(extra...)
 		if r2 != r {
@@ -267,17 +276,26 @@ func (p *pathCtx) checkModel(extra ...*sym.Term) (sym.Result, map[string]uint64)
 
 func (p *pathCtx) crossCheck(extra ...*sym.Term) sym.Result {
 	s := p.solver2
-	s.Reset()
+	if !p.s2started {
+		s.Reset()
+		p.s2started = true
+		p.declared2 = map[string]bool{}
+	}
 	for _, v := range p.vars {
-		s.Declare(v)
+		if !p.declared2[v.Name] {
+			p.declared2[v.Name] = true
+			s.Declare(v)
+		}
 	}
-	for _, t := range p.pc {
-		s.Assert(t)
+	for ; p.flushed2 < len(p.pc); p.flushed2++ {
+		s.Assert(p.pc[p.flushed2])
 	}
+	s.Push()
 	for _, e := range extra {
 		s.Assert(e)
 	}
 	r := s.Check()
+	s.Pop()
 	p.res.Queries++
 	if r == sym.Unknown {
 		p.abort("cross-check solver %s answered unknown (%s)", s.Name, s.LastErr)
@@ -293,6 +311,10 @@ func (p *pathCtx) sibling(d Decision) {
 	w := make([]Decision, len(p.decisions), len(p.decisions)+1)
 	copy(w, p.decisions)
 	w = append(w, d)
+	if p.emit != nil {
+		p.emit(w)
+		return
+	}
 	p.newWork = append(p.newWork, w)
 }
 
@@ -540,7 +562,8 @@ func (p *pathCtx) assert(cond *sym.Term, label string) {
 	}
 	if d, ok := p.nextPrefix('a'); ok {
 		p.record(d)
-		if cond.IsFalse() {
+		if cond.IsFalse() || d.B == 0 {
+			p.res.Events = append(p.res.Events, "FAIL:"+label)
 			panic(pathEnd{"assert-failed"})
 		}
 		p.addPC(cond)
@@ -549,10 +572,12 @@ func (p *pathCtx) assert(cond *sym.Term, label string) {
 	p.reportViolation("assert", label, "", sym.Not(cond))
 	if cond.IsFalse() {
 		p.record(Decision{K: 'a'})
+		p.res.Events = append(p.res.Events, "FAIL:"+label)
 		panic(pathEnd{"assert-failed"})
 	}
 	if p.checkWith(cond) != sym.Sat {
 		p.record(Decision{K: 'a'})
+		p.res.Events = append(p.res.Events, "FAIL:"+label)
 		panic(pathEnd{"assert-failed"})
 	}
 	p.record(Decision{K: 'a', B: 1})
